@@ -41,6 +41,18 @@ CLAIMED = {
         "(size, spacing, center, origin, direction, align_corners, cube_extent), float32 tolerance policy",
         "DESIGN.md 3 C03",
     ),
+    "C04": (
+        "spec/Image.tla, spec/MC_Image.tla (on GridOps, GridDefs)",
+        "TLA+ image model = GridOps grid + world-linear ramp; lock-step law checked by TLC; every chain of image operations from the state "
+        "machine is executed on Image / ImageBatch / batch with two differently placed grids; result grid vs specification, grid shape vs "
+        "data shape, data vs ramp at the returned grid's world positions (with a contamination-aware notion of 'inside the field of view'), "
+        "plus exact probe values computed by TLC",
+        "chains up to length 2 over resize/resample/down/upsample/crop/pad/center crop/pad/narrow/ROI/avg_pool on oriented anisotropic "
+        "grids with either align_corners; an exception on an enabled operation is a violation",
+        "trusted: TLC, GridOps (bound by C03), ramp exactness under linear interpolation/averaging; pyramid pre-smoothing switched off; "
+        "flow-field variants and conv are not exercised here",
+        "DESIGN.md 3 C04",
+    ),
     "C05": (
         "spec/Resample.tla, spec/MC_Resample.tla (on GridDefs)",
         "TLA+ semantics of resampling with the identity transform in exact rationals (target sample -> continuous source index via the "
